@@ -107,6 +107,32 @@ def kitchen_sink_src(date="2024-01-01T00:00:00", ns_prefix="xtce") -> str:
     return src
 
 
+def set_ns_state(h, prefix, nsmap) -> None:
+    """Process-wide namespace state of the element class, set through the library's own public setters (interpreted), so
+    that the checker does not depend on how the class stores it."""
+    h.ev("(common.NamespaceAwareElement.set_ns_prefix(p), common.NamespaceAwareElement.set_nsmap(m))", DEF, p=prefix, m=nsmap)
+
+
+def adjuster_factory(prog) -> str:
+    """Expression text naming the library's LinearAdjustment reader: the method of DataEncoding (or a module function of
+    encodings.py) that reads slope/intercept from an element and returns a closure.  Found by role, not by name."""
+    import ast as _ast
+    best = None
+    for fi in prog.functions.values():
+        if fi.relpath != "xtce/encodings.py" or fi.parent is not None:
+            continue
+        txt = _ast.dump(fi.node)
+        if "'slope'" in txt and "'intercept'" in txt and any(isinstance(n, (_ast.FunctionDef, _ast.Lambda)) and n is not fi.node
+                                                             for n in _ast.walk(fi.node)):
+            if fi.name in ("from_xml", "to_xml"):
+                continue
+            best = fi
+            break
+    if best is None:
+        raise Unsupported("no LinearAdjustment reader (slope/intercept -> closure) found in xtce/encodings.py")
+    return f"{best.cls.name}.{best.name}" if best.cls is not None else best.name
+
+
 def harness(prog, documents=None, **kw) -> Harness:
     ext = dict(source_externals())
     ext.update(xml_externals(documents))
@@ -120,10 +146,10 @@ def build_kitchen_sink(h: Harness, **kw):
     adj_16_32 = make_elem("P", children=[make_elem("LinearAdjustment", {"slope": "16", "intercept": "32"})])
     adj_1_8 = make_elem("P", children=[make_elem("LinearAdjustment", {"slope": "1", "intercept": "8"})])
     save = dict(h.it.class_state)
-    h.it.class_state[("NamespaceAwareElement", "_ns_prefix")] = None
-    h.it.class_state[("NamespaceAwareElement", "_nsmap")] = {}
+    set_ns_state(h, None, {})
     try:
-        return h.ev(kitchen_sink_src(**kw), DEF, ADJ_16_32=adj_16_32, ADJ_1_8=adj_1_8)
+        return h.ev(kitchen_sink_src(**kw).replace("DataEncoding._get_linear_adjuster", adjuster_factory(h.it.prog)), DEF,
+                    ADJ_16_32=adj_16_32, ADJ_1_8=adj_1_8)
     finally:
         h.it.class_state.clear()
         h.it.class_state.update(save)
